@@ -168,6 +168,24 @@ def run(ctx) -> None:
                 ctx.case(f"vr|time|{'lo-none' if lo is None else 'lo'}|{'hi-none' if hi is None else 'hi'}|{si}{ei}|{cname}")
     ctx.exhaustive.append("valid_range_test: all spans lo<=hi over grid+None x 4 inclusivity settings x 11 carriers")
 
+    # ---- float32 series against bounds float32 cannot represent: the comparison must be made on the widened values
+    if ctx.shard == 0:
+        import math
+        bnds = [0.7, 10.1, -3.3, 2.6, 0.1]
+        for lo, hi in [(0.7, 10.1), (-3.3, 2.6), (0.1, 0.7), (10.1, 0.7)]:
+            raw = [b + d for b in (lo, hi) for d in (-0.5, 0.0, 0.5)] + [b for b in bnds]
+            f32 = np.array(raw, dtype=np.float32)
+            vals = [float(v) for v in f32]  # the logical series: exactly what the float32 array holds
+            for sus in (None, [min(lo, hi) + 0.05, max(lo, hi) - 0.05], [0.7, 2.6] if (lo, hi) == (0.7, 10.1) else None):
+                kw = {"inp": f32, "fail_span": [lo, hi], "suspect_span": sus}
+                client.expect(ctx, "C03", "qartod.gross_range_test", kw, lambda: models.gross_range(vals, [lo, hi], sus),
+                              logical={"values(float32 widened)": vals, "fail_span": [lo, hi], "suspect_span": sus, "carrier": "f32"},
+                              hist="gross_range")
+                ctx.count("gross_range.calls")
+                ctx.case(f"gr|f32-nonrepresentable-bounds|{lo},{hi}|{sus is None}")
+            # (valid_range_test is documented to compare in the data's own dtype -- the span is cast to it -- so it
+            #  is not offered bounds the data dtype cannot represent)
+        _ = math
     # ---- seeded long series
     rng = ctx.rng
     for k in range(ctx.pick(150, 6000)):
